@@ -164,4 +164,64 @@ def run (c : Cfg) : St → List Label → Option St
   | s, [] => some s
   | s, l :: ls => (step c s l).bind fun s' => run c s' ls
 
+/-! ## The stage at THREAD granularity (package C16S): event-loop turns vs. real threads
+
+The real runner has one event-loop thread (all `schedule`d coroutines: `created`, `ack`, `finish`)
+and REAL threads beside it (the previous stage, every worker's pulling thread, the pool threads that execute
+`async_put`, the consumer).  Even without
+a suspension point the loop thread can be pre-empted between sending the kick-off and `_start_enqueue()`:
+the worker may then already pull.  What the absence of an `await` guarantees is only that no OTHER step of
+the EVENT LOOP happens in between.  `stepT` is the `ackAwait = true` LTS (kick-off `created w` and registration
+`ack w` are separate steps) restricted by exactly that: while some worker is `kicked`, the only event-loop
+step allowed is the `ack` of that worker.  The step-by-step tie (harness/lib_c16_stage.py) replays the
+projection of real runs against `stepT`. -/
+
+/-- steps executed by the single event-loop thread itself.  (`forward` is not one of them: `async_put` hands
+`self.put` to the runner's thread pool - `run_in_executor` - so the batch reaches the result queue on a pool
+thread, concurrently with the loop's current turn; found by the step-by-step tie.) -/
+def Label.isLoop : Label → Bool
+  | .created _ | .ack _ | .finish _ => true
+  | _ => false
+
+/-- some coroutine is between its kick-off and its `_start_enqueue()` -/
+def St.midTurn (s : St) : Bool := s.ws.any fun x => x.phase == .kicked
+
+/-- turn-atomic step: the `ackAwait = true` LTS in which no other event-loop step happens while a coroutine is
+between kick-off and registration -/
+def stepT (s : St) (l : Label) : Option St :=
+  if s.midTurn && l.isLoop && !(match l with | .ack _ => true | _ => false) then none
+  else step { ackAwait := true } s l
+
+def runT : St → List Label → Option St
+  | s, [] => some s
+  | s, l :: ls => (stepT s l).bind fun s' => runT s' ls
+
+inductive ReachT (s0 : St) : St → Prop where
+  | refl : ReachT s0 s0
+  | step {s s' : St} (l : Label) : ReachT s0 s → stepT s l = some s' → ReachT s0 s'
+
+/-- labels enabled in a state (for at most `n` workers), in a fixed order -/
+def allLabels (n : Nat) : List Label :=
+  [.produce, .closeInput, .consume, .consumerEnd] ++
+  (List.range n).flatMap fun w => [.schedule w, .created w, .ack w, .pull w, .pullEnd w, .forward w, .finish w]
+
+/-- program point reached by a step (coverage key of the tie): the label's constructor, refined by what the
+step observes -/
+def pointOf (s : St) (l : Label) : String :=
+  match l with
+  | .produce => "produce"
+  | .closeInput => "closeInput"
+  | .schedule _ => "schedule"
+  | .created _ => if s.start == s.stop && s.start != 0 then "created/after-transient-done" else
+                  if s.start != 0 then "created/others-registered" else "created/first"
+  | .ack w => if (s.ws[w]?.map (·.hand != [])).getD false then "ack/already-holding" else "ack/empty-handed"
+  | .pull w => if (s.ws[w]?.map (·.phase == .kicked)).getD false then "pull/unregistered" else "pull/registered"
+  | .pullEnd w => if (s.ws[w]?.map (·.phase == .kicked)).getD false then "pullEnd/unregistered" else
+                  if (s.ws[w]?.map (·.hand == [])).getD false then "pullEnd/empty-handed" else "pullEnd/holding"
+  | .forward _ => "forward"
+  | .finish _ => if s.stop + 1 == s.start then "finish/last" else "finish/others-running"
+  | .consume => "consume"
+  | .consumerEnd => if s.ws.any (fun x => x.phase == .idle || x.phase == .creating) then "consumerEnd/transient(F22)"
+                    else "consumerEnd/final"
+
 end MlModel.Stage
